@@ -310,6 +310,17 @@ def fixup_conv2d_backprop(op: Operation, arch, nng) -> Operation:
         if stride_w > 1 or stride_h > 1:
             # Transpose conv2d with upscaling
             op.ifm_resampling_mode = resampling_mode.TRANSPOSE
+        else:
+            # Transpose conv2d without upscaling is a convolution with the reversed weights where each edge of the IFM
+            # is padded by (kernel size - 1 - padding of the corresponding forward convolution on that edge)
+            k_w, k_h = op.get_kernel_size()
+            if op.attrs["padding"] == Padding.SAME:
+                # The forward convolution pads (k - 1) // 2 before and k // 2 after
+                explicit_padding = (k_h // 2, k_w // 2, (k_h - 1) // 2, (k_w - 1) // 2)
+            else:
+                explicit_padding = (k_h - 1, k_w - 1, k_h - 1, k_w - 1)
+            op.attrs["padding"] = Padding.EXPLICIT
+            op.attrs["explicit_padding"] = explicit_padding  # (top, left, bottom, right)
 
         # Update strides
         op.attrs.update({"stride_w": 1, "stride_h": 1, "strides": (1, 1, 1, 1)})
